@@ -104,6 +104,7 @@ def lean_phase(run, prop, meta_errors):
     run.lake_log = log
     if not ok:
         for m in failed: broken.append("module does not check: " + m)
+        for nm in vlib.failing_lemmas(log): broken.append("failing lemma: " + nm)
         if not failed: broken.append("lake build failed: " + log[-400:])
     hits = vlib.source_audit()
     for h in hits: broken.append("forbidden construct: " + h)
@@ -295,7 +296,7 @@ def main():
                 def relevance(c):
                     sc = 0
                     if re.search(r"U0|_u0", btxt) and not c.unaligned and c.vec128: sc += 4
-                    if re.search(r"_32(le|be)|w32", btxt) and not c.w64: sc += 2
+                    if re.search(r"_32(le|be)?(_|\b)|w32", btxt) and not c.w64: sc += 2
                     if re.search(r"_(64|32)be", btxt) and not c.le: sc += 2
                     if re.search(r"Vec|vec(128|256)", btxt) and c.vec128: sc += 1
                     return -sc
